@@ -149,7 +149,7 @@ type batchSpec struct {
 	BaseSeq uint16
 }
 
-func genBatch(t *rapid.T, base uint16, k int) []rtp.Packet {
+func genBatch(t *rapid.T, base uint16, k int, packetValues bool) []rtp.Packet {
 	pkts := make([]rtp.Packet, k)
 	ts := rapid.Uint32().Draw(t, "ts")
 	for i := range pkts {
@@ -159,6 +159,11 @@ func genBatch(t *rapid.T, base uint16, k int) []rtp.Packet {
 		h.Timestamp = ts + uint32(i/3)*3000 //nolint:gosec
 		payload := kit.Payload(t, "p", 1500)
 		pkts[i] = rtp.Packet{Header: h, Payload: payload}
+		if packetValues && h.Padding && rapid.IntRange(0, 2).Draw(t, "paddingInPacketField") == 0 {
+			// the older way to say the same, open to callers that hand rtp.Packet values to the encoder: the count in rtp.Packet.PaddingSize
+			// (deprecated, still honoured by pion/rtp); the interceptor API passes header and payload, so only the header form exists there
+			pkts[i].PaddingSize, pkts[i].Header.PaddingSize = h.PaddingSize, 0 //nolint:staticcheck
+		}
 	}
 
 	return pkts
@@ -250,7 +255,7 @@ func TestEncodeFecRecoversAnySingleLoss(t *testing.T) {
 		for bi := 0; bi < nb; bi++ {
 			k := rapid.OneOf(rapid.SampledFrom(biased), rapid.IntRange(1, 110), rapid.IntRange(1, 12)).Draw(t, "k")
 			n := rapid.OneOf(rapid.SampledFrom(biased), rapid.IntRange(0, 110), rapid.IntRange(0, 6)).Draw(t, "n")
-			media := genBatch(t, base, k)
+			media := genBatch(t, base, k, true)
 			specs = append(specs, batchSpec{K: k, N: n, BaseSeq: base})
 			lens := map[int]bool{}
 			for i := range media {
@@ -299,7 +304,7 @@ func TestInterceptorFecAfterMedia(t *testing.T) {
 		haveFecSeq := false
 		h := kit.NewH().I(k, n)
 		for bi := 0; bi < nb; bi++ {
-			media := genBatch(t, base, k)
+			media := genBatch(t, base, k, false)
 			from := sink.Len()
 			for i := range media {
 				hdr := media[i].Header.Clone()
